@@ -73,6 +73,9 @@ fn corpus() -> Vec<&'static str> {
     vec![
         // a shared distinctfd constraint object updated differently in the two branches
         "prog 3 3 0 - infd v0 I 1 3 infd v1 I 1 3 infd v2 I 1 3 distinctfd cons v0 cons v1 cons v2 nil conde 2 1 eq v0 i1 1 eq v1 i1",
+        // … and resolved in ONE unification per branch, so that a single run of the constraint sees all its variables bound (C10-a)
+        "prog 3 1 0 - distinctfd cons v1 cons v2 nil eq v0 cons v1 cons v2 nil conde 2 1 eq cons v1 cons v2 nil cons i1 cons i3 nil 1 eq cons v1 cons v2 nil cons i3 cons i3 nil",
+        "prog 3 1 0 - distinctfd cons v1 cons v2 nil eq v0 cons v1 cons v2 nil conde 2 1 eq cons v1 cons v2 nil cons i3 cons i3 nil 1 eq cons v1 cons v2 nil cons i1 cons i3 nil",
         "prog 2 2 0 - neq v0 v1 conde 2 1 eq v0 i1 2 eq v1 i1 neq v0 i2",
         "prog 2 2 0 - infd v0 I 0 3 infd v1 I 0 3 ltefd v0 v1 conde 2 1 eq v0 i2 1 eq v1 i1",
         "prog 2 2 0 - plusz v0 i1 v1 conde 2 1 eq v0 i1 1 eq v1 i1",
@@ -111,6 +114,26 @@ pub fn run(seed: u64, thorough: bool, out: &mut Out) {
                 }
             }
         };
+        if fd && r.chance(1, 6) {
+            // a distinctfd posted before the disjunction, every branch binds ALL its variables in one unification
+            out.stat("fd_distinct_multibinding");
+            let vs: Vec<T> = (0..nv).map(T::Var).collect();
+            let mut body: Vec<PG> = vec![];
+            if r.chance(1, 2) {
+                for v in &vs {
+                    body.push(PG::InFd(v.clone(), g.domain(&mut r)));
+                }
+            }
+            body.push(PG::DistinctFd(T::list(vs.clone())));
+            let k = 2 + r.below(2);
+            let clauses: Vec<Vec<PG>> = (0..k)
+                .map(|_| vec![PG::Eq(T::list(vs.clone()), T::list((0..nv).map(|_| T::Num(r.range(1, 3) as isize)).collect()))])
+                .collect();
+            body.push(PG::Conde(clauses));
+            let p = Prog { nvars: nv, nq: nv, take: 0, body, raw: false };
+            record(&p, out);
+            continue;
+        }
         let mut body: Vec<PG> = if fd { let k = r.below(3); g.conj(&mut r, k) } else { (0..r.below(3)).map(|_| atom(&mut r, false)).collect() };
         let k = 2 + r.below(2);
         let clauses: Vec<Vec<PG>> = (0..k).map(|_| (0..1 + r.below(3)).map(|_| atom(&mut r, fd)).collect()).collect();
